@@ -258,6 +258,9 @@ func c06IndexIdentity(c *Ctx, r *Report, fn *ssa.Function, e *pfxEngine, a *Anch
 						if ok {
 							call, ok2 = ex.Tuple.(*ssa.Call)
 						}
+						if ok && ok2 && call.(*ssa.Call).Call.StaticCallee() != a.dispatch && delegatesTo(call.(*ssa.Call), a.dispatch) {
+							continue // a local helper whose every variant only hands its argument to the dispatcher
+						}
 						if !ok || !ok2 || call.(*ssa.Call).Call.StaticCallee() != a.dispatch {
 							fromDispatch = false
 							why = shortPath(vpath(v))
@@ -666,3 +669,44 @@ func c06ReflectPair(call *ssa.Call) (bool, token.Pos, string) {
 }
 
 var _ = strings.Contains
+
+// delegatesTo: the call's callee is a closure made in this function (or a phi of such closures) and
+// every one of them makes exactly one call, a static call of target, and returns that call's results.
+func delegatesTo(call *ssa.Call, target *ssa.Function) bool {
+	var fns []*ssa.Function
+	leaves, _ := phiLeaves(call.Call.Value)
+	for _, lf := range leaves {
+		mc, ok := lf.val.(*ssa.MakeClosure)
+		if !ok {
+			return false
+		}
+		fn, ok := mc.Fn.(*ssa.Function)
+		if !ok {
+			return false
+		}
+		fns = append(fns, fn)
+	}
+	if len(fns) == 0 {
+		return false
+	}
+	for _, fn := range fns {
+		var only *ssa.Call
+		n := 0
+		for _, ci := range callsIn(fn) {
+			n++
+			only, _ = ci.(*ssa.Call)
+		}
+		if n != 1 || only == nil || only.Call.StaticCallee() != target {
+			return false
+		}
+		for _, rt := range returnsOf(fn) {
+			for _, res := range rt.Results {
+				ex, ok := res.(*ssa.Extract)
+				if !ok || ex.Tuple != ssa.Value(only) {
+					return false
+				}
+			}
+		}
+	}
+	return true
+}
